@@ -939,6 +939,50 @@ pub fn depth_strategy(tier: Tier) -> BoxedStrategy<usize> {
     }
 }
 
+/// Depth-20 histories on the persistent backend: a range / batch write far to the right makes the
+/// external pmtree crate collect (and write back) every node left of the range end — about a minute
+/// and several GB per request. Not a listed property; such requests are kept in the first 4096
+/// positions at depth 20 so that the thorough tier stays within the machine's memory.
+pub fn tame_for_depth20(depth: usize, ops: &mut [Op]) {
+    if depth < 16 {
+        return;
+    }
+    let small = |p: &mut Pos| {
+        if !matches!(p.kind, PosKind::Zero | PosKind::Mark | PosKind::MarkMinus1 | PosKind::MarkPlus1 | PosKind::Cap | PosKind::CapPlus1 | PosKind::Max) {
+            *p = Pos { kind: PosKind::Uniform, raw: p.raw % 256 };
+        }
+    };
+    let mut mark_may_be_large = false;
+    for op in ops.iter_mut() {
+        match op {
+            Op::SetRange(p, _) => small(p),
+            Op::Batch(p, _, rem) => {
+                small(p);
+                for r in rem.iter_mut() {
+                    small(r);
+                }
+            }
+            // single writes far right move the mark there; later mark-relative ranges would be far right too
+            Op::Set(p, _) if !mark_may_be_large => {
+                if matches!(p.kind, PosKind::Uniform | PosKind::NearEnd | PosKind::CapMinus1) {
+                    mark_may_be_large = true;
+                }
+            }
+            _ => {}
+        }
+        if mark_may_be_large {
+            match op {
+                Op::SetRange(p, _) | Op::Batch(p, _, _) => {
+                    if matches!(p.kind, PosKind::Mark | PosKind::MarkMinus1 | PosKind::MarkPlus1) {
+                        *p = Pos { kind: PosKind::Uniform, raw: 7 };
+                    }
+                }
+                _ => {}
+            }
+        }
+    }
+}
+
 #[derive(Clone, Debug, Serialize, Deserialize)]
 pub struct TreeCase {
     pub depth: usize,
